@@ -634,6 +634,7 @@ def main():
   # the index behind lookups: twowaymap.TwoWayMap against its abstract relation, with the
   # representation invariant (both dicts describe the same relation, no empty bin), for the
   # many-to-many and the many-to-one configurations lookup.py constructs
+  runner.semantics_selfcheck(rep)
   runner.run_property(rep, "contracts.C13_twowaymap", bounded=False)
   proof_cov = dict(rep.coverage)
 
